@@ -15,6 +15,7 @@ from tools.harness.codec.target_py import PyTarget
 
 PROP = 'C18'
 FID = 'F-PY-ARRELEM'
+FID_WRAP = 'F-PY-ARRWRAP'
 
 MANIFEST = dict(
     technique='Coq proof (induction over operation sequences) about a hand model of the generated Python classes whose template facts and '
@@ -387,6 +388,58 @@ class Gen:
             return r.choice([0, cap, min(1, cap), r.randint(0, cap), r.randint(0, min(cap, 6))])
         return r.choice([cap + 1, cap + 2, cap * 2 + 1])
 
+    ND_DTYPES = ['u8', 'i8', 'u16', 'i16', 'u32', 'i32', 'u64', 'i64', 'f16', 'f32', 'f64', 'b']
+
+    def nd_any(self, t, n, legal, tags):
+        """numpy.array([...], <any dtype>) for an array field of primitives: narrower, equal, wider, other signedness, float, bool"""
+        r = self.rng
+        et = t['elem']
+        src = r.choice(self.ND_DTYPES)
+        tags = set(tags) | {'nd_src_' + src}
+        exp = 'accept' if legal else 'reject'
+        if src == 'b':
+            return {'nd': 'b', 'e': [lit(r.choice([True, False])) for _ in range(n)]}, exp, tags
+        if src[0] == 'f':
+            w = int(src[1:])
+            if et['k'] in ('uint', 'int'):
+                lo, hi = int_range(et)
+                vals = [float(r.randint(max(lo, -1000), min(hi, 1000))) + r.choice([0.0, 0.0, 0.25 if w > 16 else 0.0]) for _ in range(n)]
+                vals = [v if lo <= v <= hi else float(int(v)) for v in vals]
+                if n and r.random() < 0.3:
+                    bad = [v for v in (float(hi) + 1.0, float(lo) - 1.0, float(hi) + 300.0, -3.0) if not lo <= v <= hi and abs(v) < 60000]
+                    if bad:
+                        vals[r.randrange(n)] = r.choice(bad)
+                        tags.add('arrwrap')
+                        exp = 'reject'
+                return {'nd': src, 'e': [lit(vf(v)) for v in vals]}, exp, tags
+            pool = [0.0, 1.5, -2.25, 0.5, 1024.0, 65504.0] + ([1e6, 1e-30] if w > 16 else []) + ([1e39, 1e300] if w > 32 else [])
+            vals = [r.choice(pool) * r.choice([1, -1]) for _ in range(n)]
+            if et['k'] == 'float' and et['w'] < 64 and any(abs(v) > FMAX[et['w']] for v in vals):
+                tags.add('arrelem_float')
+                exp = 'reject'
+            return {'nd': src, 'e': [lit(vf(v)) for v in vals]}, exp, tags
+        w = int(src[1:])
+        slo, shi = (0, 2 ** w - 1) if src[0] == 'u' else (-2 ** (w - 1), 2 ** (w - 1) - 1)
+        if et['k'] in ('uint', 'int'):
+            lo, hi = int_range(et)
+            a, b_ = max(lo, slo), min(hi, shi)
+            vals = [r.choice([a, b_, r.randint(a, b_)]) if a <= b_ else slo for _ in range(n)]
+            outside = [v for v in (hi + 1, lo - 1, shi, slo, hi + 256, lo - 256, hi * 2 + 1) if slo <= v <= shi and not lo <= v <= hi]
+            if n and (a > b_ or (outside and r.random() < 0.4)):
+                vals[r.randrange(n)] = r.choice(outside) if outside else slo
+            if any(not lo <= v <= hi for v in vals):
+                same = src == dt_name(et)
+                tags.add('arrelem' if same else 'arrwrap')      # same storage dtype: fast binding (non-standard width only)
+                exp = 'reject'
+        elif et['k'] == 'float':
+            vals = [r.choice([v for v in (0, 1, -3, 1000, shi, slo) if slo <= v <= shi]) for _ in range(n)]
+            if et['w'] < 64 and any(abs(v) > FMAX[et['w']] for v in vals):
+                tags.add('arrelem_float')
+                exp = 'reject'
+        else:
+            vals = [r.choice([0, 1, 2, shi]) for _ in range(n)]
+        return {'nd': src, 'e': [lit(vi(v)) for v in vals]}, exp, tags
+
     def array(self, t, valid_only=False, depth=0):
         r = self.rng
         et = t['elem']
@@ -397,6 +450,8 @@ class Gen:
         n = self.length(t, legal)
         tags = {'arr_len_legal' if legal else ('arr_len_fixed_wrong' if fixed else 'arr_over_capacity')}
         exp = 'accept' if legal else 'reject'
+        if not valid_only and k in ('uint', 'int', 'bool', 'float') and n <= 300 and r.random() < 0.2:
+            return self.nd_any(t, n, legal, tags)
         if n > 400:
             n = 400 if not legal and not fixed and t['cap'] < 400 else n
         if k in ('uint', 'int'):
@@ -742,7 +797,13 @@ def probe_cases(m: MDB) -> typing.List[typing.Tuple[dict, typing.List[dict]]]:
     L = lambda *xs: lit({'l': [vi(x) for x in xs]})  # noqa: E731
     cases = [
         one(s, [{'set': fi['va4'], 'x': L(200, 3)}], [('reject', ['arrelem', 'witness'])]),
+        one(s, [{'set': fi['va8'], 'x': {'nd': 'i64', 'e': [lit(vi(256)), lit(vi(1))]}}], [('reject', ['arrwrap', 'witness'])]),   # index 1: F-PY-ARRWRAP
         one(s, [{'set': fi['va4'], 'x': lit(vy(b'\xff\x01'))}], [('reject', ['arrelem', 'arr_bytes', 'witness'])]),
+        one(s, [{'set': fi['vi16'], 'x': {'nd': 'i64', 'e': [lit(vi(70000)), lit(vi(1))]}}, {'set': fi['va8'], 'x': {'nd': 'i64', 'e': [lit(vi(-1))]}},
+                {'set': fi['vi16'], 'x': {'nd': 'u16', 'e': [lit(vi(40000))]}}, {'set': fi['va8'], 'x': {'nd': 'f64', 'e': [lit(vf(300.0))]}},
+                {'set': fi['va8'], 'x': {'nd': 'i64', 'e': [lit(vi(255)), lit(vi(0))]}}, {'set': fi['va8'], 'x': L(256)}, {'set': fi['vi16'], 'x': L(-32769)}],
+            [('reject', ['arrwrap']), ('reject', ['arrwrap']), ('reject', ['arrwrap']), ('reject', ['arrwrap']), ('accept', ['nd_src_i64']),
+             ('reject', ['elem_storage_overflow']), ('reject', ['elem_storage_overflow'])]),
         one(s, [{'set': fi['vf16'], 'x': lit({'l': [vf(1e6)]})}], [('reject', ['arrelem_float', 'witness'])]),
         one(s, [{'set': fi['fi5'], 'x': L(100, -100)}], [('reject', ['arrelem'])]),
         one(s, [{'set': fi['va4'], 'x': {'nd': 'u8', 'e': [lit(vi(16))]}}], [('reject', ['arrelem', 'arr_ndarray'])]),
@@ -825,11 +886,13 @@ def run_namespace(label: str, spec: dict, seed: int, n_cases: int, repo: str, ex
     if label == 'probe':
         w = impl[0]
         res['witness'] = bool(w.get('steps') and w['steps'][0][0] == 'ok' and 'i200' in w['steps'][0][1])
+        w2 = impl[1]
+        res['witness_wrap'] = bool(w2.get('steps') and w2['steps'][0][0] == 'ok')      # uint8[<=4] = np.array([256, 1], int64) accepted
     res['_pending'] = (m, cases, impl, impl_defaults)
     return res
 
 
-def finish_namespace(res: dict, exe: typing.Optional[str], quirk: bool) -> None:
+def finish_namespace(res: dict, exe: typing.Optional[str], quirk: bool, wrap_live: bool = False) -> None:
     """model run (needs the probed quirk) and all comparisons"""
     m, cases, impl, impl_defaults = res.pop('_pending')
     model_lines: typing.Optional[typing.List[str]] = None
@@ -898,7 +961,8 @@ def finish_namespace(res: dict, exe: typing.Optional[str], quirk: bool) -> None:
             for cls, detail in problems:
                 # an instance of the known finding: its trigger holds, the witness reproduces on this tree, and the quirk-faithful
                 # model (when it could be built) predicts exactly this outcome and state
-                is_known = quirk and agrees and ((cls == 'invalid_accepted' and trig) or cls == 'elem_range')
+                is_known = agrees and ((quirk and ((cls == 'invalid_accepted' and trig) or cls == 'elem_range'))
+                                       or (wrap_live and cls == 'invalid_accepted' and 'arrwrap' in ex['tags']))
                 if is_known:
                     res['known_instances'] += 1
                 else:
@@ -1056,9 +1120,20 @@ def main(chk: core.Check, replay: typing.Optional[str] = None) -> int:
     if kf_live:
         chk.report_known(FID)
     quirk = bool(witness)
+    # F-PY-ARRWRAP: ndarray of another dtype wraps around on the conversion path unless the template pre-checks the source
+    witness_wrap = next((r.get('witness_wrap') for r in results if r['label'] == 'probe'), None)
+    tmpl_precheck: typing.Optional[bool] = None
+    if exe:
+        tmpl_precheck = {'1': True, '0': False}.get(core.run([exe], input='precheck\n', timeout=60).stdout.strip())
+    if tmpl_precheck is not None and witness_wrap is not None and tmpl_precheck == bool(witness_wrap):
+        broken.append('the scanned template says t_arr_precheck=%s but uint8[<=4] = numpy.array([256, 1], int64) %s on the generated classes'
+                      % (tmpl_precheck, 'is accepted' if witness_wrap else 'is rejected'))
+    wrap_live = bool(witness_wrap) and chk.is_known(FID_WRAP)
+    if wrap_live:
+        chk.report_known(FID_WRAP)
     for r in results:
         if '_pending' in r:
-            finish_namespace(r, exe, quirk)
+            finish_namespace(r, exe, quirk, wrap_live)
 
     selftest_bad = float_selftest(exe, chk.rng, 300 if quick else 3000) if exe else []
     if selftest_bad:
@@ -1083,6 +1158,9 @@ def main(chk: core.Check, replay: typing.Optional[str] = None) -> int:
         n_types += r.get('n_types', 0)
     if witness is None:
         broken.append('the probe namespace c18p could not be generated/run, the known finding could not be probed: %s' % '; '.join(errors)[:600])
+    if witness_wrap and not chk.is_known(FID_WRAP):
+        oracle.insert(0, {'class': 'invalid_accepted', 'detail': 'witness of %s reproduces but the finding is not listed as known' % FID_WRAP,
+                          'dsdl': PROBE_FILES})
     if witness and not chk.is_known(FID):
         oracle.insert(0, {'class': 'invalid_accepted', 'detail': 'witness of %s reproduces but the finding is not listed as known' % FID,
                           'dsdl': PROBE_FILES})
@@ -1104,6 +1182,8 @@ def main(chk: core.Check, replay: typing.Optional[str] = None) -> int:
     chk.notes.append('quirk model in use: %s (witness uint4[<=3] = [200, 3] %s; scanned template: arrelem_quirk=%s; live theorem: %s)'
                      % (quirk, 'reproduces' if witness else 'does not reproduce', tmpl_quirk,
                         'C18_obj_invariant_partial + C18_array_elem_range_refuted' if quirk else 'C18_obj_invariant_strict_noquirk'))
+    chk.notes.append('F-PY-ARRWRAP: witness uint8[<=4] = numpy.array([256, 1], int64) %s; scanned template: t_arr_precheck=%s'
+                     % ('is accepted (wraps to [0, 1])' if witness_wrap else 'is rejected', tmpl_precheck))
 
     if replay:
         for r in results:
